@@ -55,10 +55,13 @@ PathStr(pre, abs, es) == pre \o (IF abs THEN <<BSL>> ELSE <<>>) \o JoinB(es, 1)
 ElemSeqs(n) == UNION {{es \in [1..k -> Elems] : k = 0 \/ es[1] # <<>>} : k \in 0..n}
 NameTargets == {nN, <<46, 46, 92, 78>>, <<46, 46, 32, 92, 78>>, <<65, 92, 78>>, nF}    \* N  ..\N  ".. \N"  A\N  F
 
-Init == st = InitSt /\ last = [a |-> [stmt |-> "init", path |-> <<>>], r |-> Res(InitSt, TRUE, 0, {})]
-\* (the result is computed once, in `last`; TLC does not cache LET values across primed conjuncts)
-Do(a) == /\ last' = [a |-> a, r |-> Apply(st, a)]
-         /\ st' = IF Dynamic THEN last'.r.st ELSE [st EXCEPT !.cwd = last'.r.st.cwd]
+Init == st = InitSt /\ last = [a |-> [stmt |-> "init", path |-> <<>>], ok |-> TRUE, code |-> 0, touched |-> {},
+                                cwd |-> InitSt.cwd, fs |-> <<>>]
+\* (the result is computed once, in `last`, which keeps only what the successor state and the invariants need)
+Do(a) == /\ last' = LET r == Apply(st, a)
+                    IN [a |-> a, ok |-> r.ok, code |-> r.code, touched |-> r.touched, cwd |-> r.st.cwd,
+                        fs |-> IF Dynamic THEN r.st.fs ELSE <<>>]
+         /\ st' = [fs |-> IF Dynamic THEN last'.fs ELSE st.fs, cwd |-> last'.cwd]
 Next == \/ \E s \in StmtSet \ {"NAME"}, pre \in Prefixes, abs \in BOOLEAN, es \in ElemSeqs(MaxElems) :
               Do([stmt |-> s, path |-> PathStr(pre, abs, es)])
         \/ /\ "NAME" \in StmtSet
@@ -71,16 +74,16 @@ Nodes == Cardinality(st.fs.dirs) + Cardinality(st.fs.files)
 Bound == ~Dynamic \/ (Nodes <= MaxNodes /\ Nodes >= MaxNodes - 3)
 
 \* the property
-TouchedInside == TouchedOK(last.r.touched)
+TouchedInside == TouchedOK(last.touched)
 CwdInside == CwdInsideSt(st)
 OutsideSame == OutsideOf(st.fs) = OutsideOf(InitFs)
 \* sanity of the model: a failed statement changes nothing; the current directory always is a list of plain names
-FailNoEffect == [][~last'.r.ok => st' = st]_vars
+FailNoEffect == [][~last'.ok => st' = st]_vars
 CwdPlain == AsCodedDots \/ \A d \in DOMAIN Roots : \A i \in 1..Len(st.cwd[d]) : st.cwd[d][i] \notin {<<>>, D1, D2}
 
 FlatCwd(s) == LET ds == DOMAIN Roots IN {<<d, s.cwd[d]>> : d \in ds}
-Emit == PrintT(<<"TRANSITION", ToJson([cwd |-> FlatCwd(st), a |-> last'.a, ok |-> last'.r.ok, code |-> last'.r.code,
-                                        tocwd |-> FlatCwd(st'), touched |-> last'.r.touched])>>)
+Emit == PrintT(<<"TRANSITION", ToJson([cwd |-> FlatCwd(st), a |-> last'.a, ok |-> last'.ok, code |-> last'.code,
+                                        tocwd |-> FlatCwd(st'), touched |-> last'.touched])>>)
 ASSUME PrintT(<<"SANDBOX", ToJson([dirs |-> InitFs.dirs, files |-> InitFs.files,
                                    roots |-> {<<d, Roots[d]>> : d \in DOMAIN Roots}, cur |-> CurDrive])>>)
 =============================================================================
